@@ -63,6 +63,7 @@ type ExScenario struct {
 	Op     string // "request", "renew", "release", "inform", "solicit", "request6", "rapid"
 	P1, P2 []RK   // replies to the first / second distinct client message
 	Bound  int
+	Size   int  // >0: every well-formed reply is padded with a filler option to exactly this many bytes
 	Fault  bool // renew: a first attempt whose transmission fails (injected write error) precedes the exchange under test
 }
 
@@ -77,6 +78,9 @@ func (s *ExScenario) String() string {
 	flt := ""
 	if s.Fault {
 		flt = " (after an attempt whose transmission failed)"
+	}
+	if s.Size > 0 {
+		flt += fmt.Sprintf(" (replies of %d bytes)", s.Size)
 	}
 	return fmt.Sprintf("%s op=%s%s phase1=%s phase2=%s", s.Name, s.Op, flt, f(s.P1), f(s.P2))
 }
@@ -240,6 +244,30 @@ func build6(req *dhcpv6.Message, k RK, serial, phase int) ([]byte, replyMeta) {
 	return m.ToBytes(), meta
 }
 
+// pad4/pad6 re-encode a well-formed reply with one filler option so that it is exactly size bytes long.
+func pad4(data []byte, size int) []byte {
+	p, err := dhcpv4.FromBytes(data)
+	if size <= 0 || err != nil {
+		return data
+	}
+	for f := 0; f <= size && len(p.ToBytes()) < size; f++ {
+		p.UpdateOption(dhcpv4.OptGeneric(dhcpv4.GenericOptionCode(225), bytes.Repeat([]byte{0x5a}, f)))
+	}
+	return p.ToBytes()
+}
+
+func pad6(data []byte, size int) []byte {
+	d, err := dhcpv6.FromBytes(data)
+	if size < len(data)+4 || err != nil {
+		return data
+	}
+	if m, ok := d.(*dhcpv6.Message); ok {
+		m.AddOption(&dhcpv6.OptionGeneric{OptionCode: 65002, OptionData: bytes.Repeat([]byte{0x5a}, size-len(data)-4)})
+		return m.ToBytes()
+	}
+	return data
+}
+
 const exT = 4 // ticks
 
 func (s *ExScenario) body(out **exRun) func() {
@@ -290,8 +318,10 @@ func (s *ExScenario) body(out **exRun) func() {
 				var meta replyMeta
 				if !v6 {
 					data, meta = build4(tx.v4, k, serial, phase)
+					data = pad4(data, s.Size)
 				} else {
 					data, meta = build6(tx.v6, k, serial, phase)
+					data = pad6(data, s.Size)
 				}
 				run.replies = append(run.replies, meta)
 				conn.DeliverNow(Datagram{Serial: serial, Data: data, From: serverAddr})
@@ -785,6 +815,19 @@ func c13Scenarios(tier string) []Scenario {
 		add(&ExScenario{Op: "renew", P1: p1, Fault: true})
 	}
 	add(&ExScenario{Op: "release"})
+	// reply sizes: the plain successful exchanges with replies of every size up to the 1500 bytes the clients receive
+	szs := []int{576, 1024, 1499, 1500}
+	if thorough {
+		szs = nil
+		for n := 320; n <= 1500; n += 1 {
+			szs = append(szs, n)
+		}
+	}
+	for _, n := range szs {
+		add(&ExScenario{Op: "request", P1: []RK{ROffer1}, P2: []RK{RAck1}, Size: n, Bound: 1})
+		add(&ExScenario{Op: "renew", P1: []RK{RAck1}, Size: n, Bound: 1})
+		add(&ExScenario{Op: "inform", P1: []RK{RAck1}, Size: n, Bound: 1})
+	}
 	for _, p1 := range rkSeqs([]RK{RAck1, RNak1, RAck2, RGarbage}, 2) {
 		add(&ExScenario{Op: "renew+release", P1: p1})
 	}
@@ -808,6 +851,12 @@ func c13Scenarios(tier string) []Scenario {
 	for _, p1 := range rkSeqs(a6, 3) {
 		add(&ExScenario{Op: "solicit", P1: p1})
 		add(&ExScenario{Op: "request6", P1: p1})
+	}
+	for _, n := range szs {
+		add(&ExScenario{Op: "solicit", P1: []RK{RAdv1}, Size: n, Bound: 1})
+		add(&ExScenario{Op: "request6", P1: []RK{RReply}, Size: n, Bound: 1})
+		add(&ExScenario{Op: "rapid", P1: []RK{RReplyRapid}, Size: n, Bound: 1})
+		add(&ExScenario{Op: "rapid", P1: []RK{RAdv1}, P2: []RK{RReply}, Size: n, Bound: 1})
 	}
 	j := 0
 	for _, p1 := range rkSeqs(a6, n6) {
